@@ -3,7 +3,7 @@
 P=$1; D=$2; K=$3; O=$D/out/$K
 cd $D && git checkout -q -- . && git apply $O/patch.diff || { echo "APPLY-FAIL(worktree)"; exit 2; }
 PYTHONPATH=$D/src /venv/bin/python $O/demo.py >/dev/null 2>&1; with=$?
-T=$(PYTHONPATH=$D/src /venv/bin/python -m pytest -q -p no:cacheprovider -x tests/ 2>&1 | tail -1)
+if [ -n "$NOTEST" ]; then T="(suite not re-run)"; else T=$(PYTHONPATH=$D/src /venv/bin/python -m pytest -q -p no:cacheprovider -x tests/ 2>&1 | tail -1); fi
 git checkout -q -- .
 PYTHONPATH=$D/src /venv/bin/python $O/demo.py >/dev/null 2>&1; without=$?
 echo "demo with=$with without=$without tests: $T"
